@@ -40,6 +40,35 @@ chk("C11", "exploration",
     "Histories and positions are sampled; the real CLI's JSON-RPC layer is not driven (requests go to the services API the CLI forwards to).",
     "runtime monitoring: panic/abort monitor over generated request histories in subprocess workers + heap invariant hook", "DESIGN.md §4 C11")
 
+chk("C01", "translation_validation",
+    "tests.AllTests, seeded well-typed-by-construction multi-module programs (enum layouts, generics, closures, patterns, loops, Vec/Str builtins, std) and run-time operator tables are executed by the reference interpreter over the checked AST and, after the real compile_sources, by the validating WasmGC interpreter on the emitted bytes; printed lines and ending must agree. Disagreements are delta-debugged and signed by symptom + structural cause tags.",
+    "Trusts the reference interpreter (written from the spec, calibrated on tests/snapshot.txt) and the purpose-built WasmGC interpreter (no stock engine in the sandbox can run the module; host imports mirror loader.js); runs with implementation-defined behaviour are excluded; programs are sampled from the generator's grammar.",
+    "runtime monitoring: differential oracle (reference interpreter vs emitted wasm) over generated programs", "DESIGN.md §4 C01")
+chk("C03", "exploration",
+    "Every checker-accepted program (generated programs incl. nasty strings, accepted token/range mutants of the sample programs run through their run() entry, tests.AllTests, operator tables) must compile without panic, produce wasm that validates (wasmparser, all features) and TypeScript that tokenises and parses (node), and must not end in an engine-level fault (CastFailure, NullReference, IndirectCallTypeMismatch, out-of-bounds, unreachable outside the Vec helpers), a no-arm-matched fallback, or a JS TypeError/ReferenceError/SyntaxError.",
+    "Outcome classification trusts wasmparser's validator, the WasmGC interpreter's trap taxonomy and node; TS runs after type erasure (eraser refusals are inconclusive); programs are sampled.",
+    "runtime monitoring: outcome classifier over compile / validate / instantiate / run of accepted programs", "DESIGN.md §4 C03")
+chk("C04", "translation_validation",
+    "The emitted TypeScript (type-erased, run by the real node in batched vm contexts) and the emitted wasm (WasmGC interpreter) of generated programs, run-time operator tables over hostile operand pools (all sign combinations of / and %, comparisons, Vec<int>/Vec<Str> round trips, string equality, toInt/fromInt) and tests.AllTests must print the same lines and end the same way. Two golden-test-pinned differences are attributed by intervention (patching the emitted JS) and listed as known findings.",
+    "Trusts the eraser (strict: refuses unknown shapes), node 20 and the WasmGC interpreter; runs the reference interpreter flags as implementation-defined are excluded; engine faults on one side are C03's subject.",
+    "runtime monitoring: differential oracle (emitted TS under node vs emitted wasm) with cause attribution by intervention", "DESIGN.md §4 C04")
+chk("C07", "exploration",
+    "Generated type declarations (nullary / mixed / recursive / mutually nested / generic enums, struct classes, tuples) with generated pattern matrices for match, if-let and destructuring let are checked by the real front end; its verdict, counterexample (parsed back) and irrefutability flag are compared with a brute-force oracle that enumerates all values up to pattern depth + 1 and matches them with an independent matcher; accepted matches are executed on all values by the reference interpreter (and a sample through compiled wasm).",
+    "Trusts the value enumerator (cut at depth + 1 with shallowest inhabitants) and the 30-line matcher; bounded to <= 5 variants, <= 3 payloads, nesting <= 3, <= 2000 values per scrutinee.",
+    "runtime monitoring: brute-force value-enumeration oracle over generated (type, pattern matrix) pairs", "DESIGN.md §4 C07")
+chk("C14", "exploration",
+    "Every location of the parsed tree of corpus files, generated declaration modules and generator programs under a layout randomiser (tabs, CRLF, blank lines, very long lines, multi-line and multi-byte comments before names, multi-byte strings) is checked against the text: inside the document, start <= end, enclosed by the parent, siblings disjoint, names slice exactly their spelling; the same for diagnostics, definition, references and folding ranges.",
+    "Columns are byte offsets; the tree shape is astwalk's; `this` references are exempt from the spelling rule (the server answers with the class).",
+    "runtime monitoring: structural location invariants checked on generated layouts", "DESIGN.md §4 C14")
+chk("C16", "exploration",
+    "For generated documents (0-4 existing imports in any order, with/without `;`, duplicates, comments, CRLF; unresolved class used in expression and/or annotation position; 1-3 exporting modules; cold start or after an edit history) every auto-import quick fix and every completion item's additional edits are applied by an independent text-edit applier; the result must keep ranges inside the document and disjoint, parse without new syntax errors, add exactly the named import, no longer report the class as unresolved and leave all declarations unchanged.",
+    "Trusts the applier and the canonical tree; layouts are sampled.",
+    "runtime monitoring: apply-and-recheck oracle over generated import layouts", "DESIGN.md §4 C16")
+chk("C18", "exploration",
+    "Generated driver programs perform random operation sequences (every public member of std Map, Set and List; small and wide key ranges) and print canonical renderings plus an in-language AVL shape check after every step; a Rust BTreeMap/BTreeSet/Vec model predicts every line. Executed by the reference interpreter and, for a sample, by compiled wasm and TypeScript.",
+    "Trusts the Rust model and the driver's rendering; keys stay within |k| < 2^30 where Int.compare cannot overflow; sequences are sampled.",
+    "runtime monitoring: reference-model oracle over generated operation histories", "DESIGN.md §4 C18")
+
 NA_REASON = "check under construction in this round (machinery not yet registered)"
 m = {
  "version": 1,
